@@ -4,8 +4,8 @@ import (
 	"context"
 	"crypto/sha256"
 	"errors"
-	"path/filepath"
 	"fmt"
+	"path/filepath"
 	"sort"
 	"strings"
 	"sync"
@@ -575,7 +575,9 @@ func (w *world) step(t *wTask, f wFault) (outcome string) {
 	return outcome
 }
 
-func (w *world) caseOp() (string, string) { return strings.Join(w.ops, "\n"), strings.Join(w.outs, "\n") }
+func (w *world) caseOp() (string, string) {
+	return strings.Join(w.ops, "\n"), strings.Join(w.outs, "\n")
+}
 
 // ---- declarations used by the world runs ----
 
